@@ -230,6 +230,15 @@ pub fn exercise(c: &Case, rec: &mut Rec) -> Result<(), String> {
                     // Err from emulation is a clean outcome too (e.g. a broken tape still inserted)
                     let _ = e.emulate_frames(crate::host::LONG);
                 }
+                // whatever the load left behind (selected AY register, latch, devices), a program that
+                // uses the ports keeps running: AY read-back and write, ULA, joystick, mouse, paging-class read
+                let prog: [u8; 30] = [
+                    0xF3, 0x01, 0xFD, 0xFF, 0xED, 0x78, 0x06, 0xBF, 0xED, 0x79, 0x01, 0xFE, 0x7F, 0xED, 0x78, 0xED, 0x79, 0x01, 0x1F, 0x00, 0xED, 0x78, 0x01, 0xDF, 0xFA, 0xED, 0x78, 0x18,
+                    0xE4, 0x00,
+                ];
+                e.verif_ram_page_mut(page)[0x40..0x40 + prog.len()].copy_from_slice(&prog);
+                mach::set_regs(&mut e, &RegFile { pc: 0x8040, sp: 0xBF00, ..Default::default() });
+                let _ = e.emulate_frames(crate::host::LONG);
                 Ok(if res.is_ok() { "ok" } else { "err" })
             }
         }
@@ -878,7 +887,7 @@ pub fn replay(run: &mut Run, phase: &str, case: &serde_json::Value) -> Result<()
 }
 
 pub const LEVEL: &str = "fault_enumeration";
-pub const RULE: &str = "targets: load_snapshot(SNA|SZX), load_screen(SCR), load_tape(TAP) followed by four ROM fast-load requests (destinations 0xC000, 0xFFF8 and 0xFFFF, so that blocks end at or wrap past the top of memory), rewind and 32 frames of real-time playing, load_rom, GzipAsset::new, Vtx::load followed by playing; both machines, the receiving emulator standing at a frame start or stopped by a breakpoint somewhere inside a frame; 3 frames of emulation after every outcome. Inputs: (1) committed corpus (repository assets and earlier failures); (2) fault enumeration: for valid files of every format a fault (error, 1-byte / 7-byte short read, premature end-of-data; one-shot or sticky) at EVERY read/seek call index the successful load performs; (2b) length boundaries: valid files of every format cut or padded (0x00 / 0xA5) to every length within a few bytes of each structural boundary (SNA: header, every bank end, 49179, 49183, 131103, 147487; SZX/TAP: every chunk/block header and body end; SCR 6144/6912; ROM 16384/32768; gzip/VTX headers and trailers), offered to both machines; (2c) gzip files of at most 160 KiB that unpack to 1..120 MiB and SZX files whose compressed RAM page inflates to 20 KiB..100 MiB; (3) valid files from the harness' writers with 0..4 field/structure mutations (byte set, 32-bit set incl. 0/1/0xFFFF/0xFFFFFFFF/16383/16385, truncation, append, remove, splice; half of the positions in the first 512 bytes); (4) explicit SZX chunk lists with adversarial ids (non-UTF-8), sizes (0, 1, 2^32-1, ...) and body lengths (0..40, short RAMP pages, bodies of 65536..70000 bytes really present); (5) VTX headers with adversarial sizes, player frequency 0, missing string terminators; (6) uniform bytes up to 160 KiB with and without magic. Monitor: catch_unwind with overflow checks and debug assertions enabled in all crates (profile `checked`), a counting allocator flagging any single request above max(16 MiB, 64 x input), deterministic loop detection (asset asked to read again after 100000 zero-length results). non-trivial = input passes the format's first size/magic validation as judged by the harness; distinct = hash of (bytes, target, machine, fault)";
+pub const RULE: &str = "targets: load_snapshot(SNA|SZX), load_screen(SCR), load_tape(TAP) followed by four ROM fast-load requests (destinations 0xC000, 0xFFF8 and 0xFFFF, so that blocks end at or wrap past the top of memory), rewind and 32 frames of real-time playing, load_rom, GzipAsset::new, Vtx::load followed by playing; both machines, the receiving emulator standing at a frame start or stopped by a breakpoint somewhere inside a frame; 3 frames of emulation after every outcome, then a frame of a program that reads and writes the AY, ULA, joystick and mouse ports. Inputs: (1) committed corpus (repository assets and earlier failures); (2) fault enumeration: for valid files of every format a fault (error, 1-byte / 7-byte short read, premature end-of-data; one-shot or sticky) at EVERY read/seek call index the successful load performs; (2b) length boundaries: valid files of every format cut or padded (0x00 / 0xA5) to every length within a few bytes of each structural boundary (SNA: header, every bank end, 49179, 49183, 131103, 147487; SZX/TAP: every chunk/block header and body end; SCR 6144/6912; ROM 16384/32768; gzip/VTX headers and trailers), offered to both machines; (2c) gzip files of at most 160 KiB that unpack to 1..120 MiB and SZX files whose compressed RAM page inflates to 20 KiB..100 MiB; (3) valid files from the harness' writers with 0..4 field/structure mutations (byte set, 32-bit set incl. 0/1/0xFFFF/0xFFFFFFFF/16383/16385, truncation, append, remove, splice; half of the positions in the first 512 bytes); (4) explicit SZX chunk lists with adversarial ids (non-UTF-8), sizes (0, 1, 2^32-1, ...) and body lengths (0..40, short RAMP pages, bodies of 65536..70000 bytes really present); (5) VTX headers with adversarial sizes, player frequency 0, missing string terminators; (6) uniform bytes up to 160 KiB with and without magic. Monitor: catch_unwind with overflow checks and debug assertions enabled in all crates (profile `checked`), a counting allocator flagging any single request above max(16 MiB, 64 x input), deterministic loop detection (asset asked to read again after 100000 zero-length results). non-trivial = input passes the format's first size/magic validation as judged by the harness; distinct = hash of (bytes, target, machine, fault)";
 pub const ASSUMPTIONS: &[&str] = &[
     "Ok and Err are both clean outcomes; an Err from emulate_frames after a failed tape load is clean too",
     "non-termination is detected by a deterministic work counter in the asset, not by wall clock",
